@@ -734,6 +734,60 @@ pub fn shape_pool(q: bool) -> Vec<Spec> {
     v
 }
 
+/// Feature combinations: one shape of each pool family, (a) moved into a second rule set that is
+/// entered and left by switches, (b) with every action fallible, (c) with a right context on its
+/// first rule — and every combination of two and three of these.
+pub fn combo_family(q: bool) -> Vec<Spec> {
+    let mut seen: Vec<&'static str> = vec![];
+    let mut bases: Vec<Spec> = vec![];
+    for s in shape_pool(q) {
+        let plain = s.lets.is_empty() && s.sets.len() == 1 && s.sets[0].rules.len() <= 6 && s.sets[0].rules.iter().all(|r| !r.re.has_eoi());
+        if !plain || seen.iter().filter(|f| **f == s.family).count() >= if q { 1 } else { 3 } {
+            continue;
+        }
+        seen.push(s.family);
+        bases.push(s);
+    }
+    let fallible = |rules: &[Rule]| -> Vec<Rule> { rules.iter().map(|r| Rule { kind: match r.kind { Kind::Act(d) => Kind::Fallible(d), k => k }, ..r.clone() }).collect() };
+    let with_ctx = |rules: &[Rule], c: &Re| -> Vec<Rule> {
+        let mut v = rules.to_vec();
+        if v[0].ctx.is_none() {
+            v[0].ctx = Some(c.clone());
+        }
+        v
+    };
+    let in_set2 = |rules: &[Rule], fall: bool| -> Spec {
+        let k = |d: u8| if fall { Kind::Fallible(d) } else { Kind::Act(d) };
+        let mut inner = rules.to_vec();
+        let last = inner.len() - 1;
+        inner[last].kind = k(d_switch_return(0));
+        inner[0].kind = k(d_switch_return(2));
+        Spec::multi(
+            vec![
+                vec![rule(ch('x'), k(d_switch_return(1))), rule(cat(ch('x'), ch('x')), k(d_switch(1))), rule(set(&[('a', 'c')]), k(D_RETURN))],
+                inner,
+                vec![rule(ch('x'), k(d_switch_return(1))), rule(plus(set(&[('a', 'b')])), k(d_switch_return(0))), rule(ch('c'), k(D_CONTINUE))],
+            ],
+            "combo",
+        )
+    };
+    let ctxs = [alt(set(&[('a', 'c')]), Re::Eoi), ch('b'), cat(Re::Any, opt(ch('x')))];
+    let mut out = vec![];
+    for (i, b) in bases.iter().enumerate() {
+        let r = &b.sets[0].rules;
+        let c = &ctxs[i % ctxs.len()];
+        let mut push = |rules: Vec<Rule>| out.push(Spec::single(rules, "combo"));
+        push(fallible(r));
+        push(with_ctx(r, c));
+        push(fallible(&with_ctx(r, c)));
+        out.push(in_set2(r, false));
+        out.push(in_set2(r, true));
+        out.push(in_set2(&with_ctx(r, c), false));
+        out.push(in_set2(&with_ctx(r, c), true));
+    }
+    out
+}
+
 /// The pool as two groups (letters a b c x; characters at the ends of table ranges).
 pub fn pool_groups(prop: &'static str, proj: Proj, q: bool, max_dev: usize) -> Vec<Group> {
     let mut p1 = plan(prop, proj, 5, max_dev);
@@ -768,9 +822,10 @@ pub fn pool_groups(prop: &'static str, proj: Proj, q: bool, max_dev: usize) -> V
     let mut p4 = plan(prop, proj, 3, 0);
     p4.alphabet = FOLD_ALPHABET.to_vec();
     let fold: Vec<Spec> = fold_family().into_iter().step_by(if q { 3 } else { 1 }).collect();
+    let p6 = plan(prop, proj, 4, max_dev.max(1));
     let mut p5 = plan(prop, proj, 3, 0);
     p5.alphabet = HIGH_ALPHABET.to_vec();
-    vec![Group { plan: p1, specs: shape_pool(q) }, Group { plan: p2, specs: tables }, Group { plan: p3, specs: bound }, Group { plan: p4, specs: fold }, Group { plan: p5, specs: high_family() }]
+    vec![Group { plan: p1, specs: shape_pool(q) }, Group { plan: p2, specs: tables }, Group { plan: p3, specs: bound }, Group { plan: p4, specs: fold }, Group { plan: p5, specs: high_family() }, Group { plan: p6, specs: combo_family(q) }]
 }
 
 fn with<F: FnOnce(&mut Plan)>(mut p: Plan, f: F) -> Plan {
